@@ -134,7 +134,7 @@ def run(ctx):
                 exp = [(a + d2, d) for a, d in recs]
                 if st != "ok" or val != exp:
                     s.violate({"file_len": len(f), "kind": desc, "first_delta": delta, "delta": d2, "file_head": f[:48].hex(), "note": "the same file was read before in this process"},
-                              [(a, len(d)) for a, d in exp][:4], (st, [(a, len(d)) for a, d in (val or [])][:4]),
+                              [(a, len(d)) for a, d in exp][:4], (st, [(a, len(d)) for a, d in (val if st == "ok" else [])][:4] if st == "ok" else val),
                               "a patch file included again (same process, unchanged file) does not yield its records shifted by that include's delta")
                     break
         s.sample({"file": files[0][0][:40].hex(), "kind": files[0][1], "model": model[0][:80]})
